@@ -69,27 +69,3 @@ func VH_C01_string_bytes() {
 	zzverif.Assert(vJSONString(out, 0) == len(out), "string/bytes/key encoders emit one well-formed JSON string literal in valid UTF-8 without control bytes")
 	zzverif.Reach("C01/string-bytes")
 }
-
-// Lines of DERIVED loggers: a small tree of loggers (each derivation step of C05's vDerive) whose
-// nodes log in an order different from their creation; every line written must be one
-// well-formed JSON object (two loggers sharing a context buffer corrupt each other's lines).
-func VH_C01_derived_lines() {
-	op1, op2, op3 := zzverif.Choice(vOps), zzverif.Choice(vOps), zzverif.Choice(vOps)
-	root := New(&vWriter{}).With().Str("root", "r").Logger()
-	a := vDerive(root, op1, "a")
-	b := vDerive(a, op2, "b")
-	c := vDerive(a, op3, "cc") // a field of another length than b's
-	var lines [][]byte
-	switch zzverif.Choice(3) {
-	case 0:
-		lines = [][]byte{vEmit(root), vEmit(a), vEmit(b), vEmit(c)}
-	case 1:
-		lines = [][]byte{vEmit(c), vEmit(b), vEmit(a), vEmit(root)}
-	case 2:
-		lines = [][]byte{vEmit(b), vEmit(root), vEmit(c), vEmit(a), vEmit(b)}
-	}
-	for _, ln := range lines {
-		zzverif.Assert(ln != nil && vLine(ln), "derived loggers: every logger of a derivation tree writes one well-formed JSON object per event, on one line")
-	}
-	zzverif.Reach("C01/derived-lines")
-}
